@@ -244,3 +244,16 @@ Proof.
     rewrite (Ei2 s1), Hi. simpl.
     destruct (fa s1) eqn:Fa; [contradiction|]. destruct (fg s1) eqn:Fg; [contradiction|]. reflexivity.
 Qed.
+
+(* loading a state WITH factors and constant intervals, with compute_inverses, overwrites everything a later run depends on:
+   the result does not depend on what the target object had done before (fresh or already used), beyond the batch counters *)
+Lemma load_forgets_the_target_l : forall cfg cks s s' ck c a g vf vi,
+  nth_error cks ck = Some c -> k_factors c = Some (a, g) -> a <> FNone -> g <> FNone ->
+  k_fus c = Some vf -> k_ius c = Some vi ->
+  mini s = mini s' -> a_cnt s = a_cnt s' -> g_cnt s = g_cnt s' ->
+  kstep cfg cks s (Load ck true) = kstep cfg cks s' (Load ck true).
+Proof.
+  intros cfg cks s s' ck c a g vf vi Hn Hf Ha Hg Hfu Hiu Hm Hac Hgc.
+  cbn [kstep]. rewrite Hn, Hf, Hfu, Hiu, Hm, Hac, Hgc.
+  destruct a; [congruence|]; destruct g; [congruence|]; reflexivity.
+Qed.
